@@ -670,6 +670,31 @@ impl<Writer: Write> Mp4Writer<Writer> {
         }
         self.finalized = true;
 
+        // mdhd/tkhd/mvhd are version 0 boxes with 32-bit durations: a track that is longer
+        // than that (13.25 h at 90 kHz) cannot be described and must not wrap around.
+        for (samples, fallback) in [
+            (&self.video_samples, self.video_last_delta),
+            (&self.audio_samples, self.audio_last_delta),
+        ] {
+            let mut total: u64 = 0;
+            for (idx, sample) in samples.iter().enumerate() {
+                let duration = sample.duration.unwrap_or_else(|| {
+                    if idx == samples.len() - 1 {
+                        fallback.unwrap_or(1)
+                    } else {
+                        1
+                    }
+                });
+                total = total.saturating_add(u64::from(duration));
+            }
+            if total > u64::from(u32::MAX) {
+                return Err(io::Error::new(
+                    io::ErrorKind::InvalidData,
+                    "MP4 track duration exceeds u32::MAX media ticks",
+                ));
+            }
+        }
+
         // The visual sample entry stores width and height in 16 bits; larger values cannot
         // be written and are reported instead of tripping the builders' invariants.
         if video.width > u32::from(u16::MAX) || video.height > u32::from(u16::MAX) {
@@ -1392,20 +1417,27 @@ fn build_moov_box(
     video_config: &VideoConfig,
     metadata: Option<&Metadata>,
 ) -> Vec<u8> {
-    // Calculate duration in media timescale, then convert to movie timescale (ms)
-    let video_duration_media = video_tables.total_duration();
-    let video_duration_ms =
-        (video_duration_media * MOVIE_TIMESCALE as u64 / MEDIA_TIMESCALE as u64) as u32;
+    // Track durations in media timescale, converted to movie timescale (ms). `finalize` has
+    // checked that every track duration fits 32 bits. The movie lasts as long as its longest track.
+    let to_ms = |media: u64| (media * MOVIE_TIMESCALE as u64 / MEDIA_TIMESCALE as u64) as u32;
+    let video_duration_ms = to_ms(video_tables.total_duration());
+    let audio_duration_ms = audio.map(|(_, tables)| to_ms(tables.total_duration()));
+    let movie_duration_ms = video_duration_ms.max(audio_duration_ms.unwrap_or(0));
 
-    let mvhd_payload = build_mvhd_payload(video_duration_ms);
+    let mvhd_payload = build_mvhd_payload(movie_duration_ms);
     let mvhd_box = build_box(b"mvhd", &mvhd_payload);
-    let trak_box = build_trak_box(video, video_tables, video_config, metadata);
+    let trak_box = build_trak_box(video, video_tables, video_config, metadata, video_duration_ms);
 
     let mut payload = Vec::new();
     payload.extend_from_slice(&mvhd_box);
     payload.extend_from_slice(&trak_box);
     if let Some((audio_track, audio_tables)) = audio {
-        let audio_trak = build_audio_trak_box(audio_track, audio_tables, metadata);
+        let audio_trak = build_audio_trak_box(
+            audio_track,
+            audio_tables,
+            metadata,
+            audio_duration_ms.unwrap_or(0),
+        );
         payload.extend_from_slice(&audio_trak);
     }
 
@@ -1424,8 +1456,9 @@ fn build_audio_trak_box(
     audio: &Mp4AudioTrack,
     tables: &SampleTables,
     metadata: Option<&Metadata>,
+    duration_ms: u32,
 ) -> Vec<u8> {
-    let tkhd_box = build_audio_tkhd_box();
+    let tkhd_box = build_audio_tkhd_box(duration_ms);
     let mdia_box = build_audio_mdia_box(audio, tables, metadata);
 
     let mut payload = Vec::new();
@@ -1434,8 +1467,8 @@ fn build_audio_trak_box(
     build_box(b"trak", &payload)
 }
 
-fn build_audio_tkhd_box() -> Vec<u8> {
-    build_tkhd_box_with_id(2, 0x0100, 0, 0)
+fn build_audio_tkhd_box(duration_ms: u32) -> Vec<u8> {
+    build_tkhd_box_with_id(2, 0x0100, 0, 0, duration_ms)
 }
 
 fn build_audio_mdia_box(
@@ -1660,8 +1693,9 @@ fn build_trak_box(
     tables: &SampleTables,
     video_config: &VideoConfig,
     metadata: Option<&Metadata>,
+    duration_ms: u32,
 ) -> Vec<u8> {
-    let tkhd_box = build_tkhd_box(video);
+    let tkhd_box = build_tkhd_box(video, duration_ms);
     let mdia_box = build_mdia_box(video, tables, video_config, metadata);
 
     let mut payload = Vec::new();
@@ -2280,18 +2314,25 @@ fn build_smhd_box() -> Vec<u8> {
     build_box(b"smhd", &payload)
 }
 
-fn build_tkhd_box(video: &Mp4VideoTrack) -> Vec<u8> {
-    build_tkhd_box_with_id(1, 0, video.width, video.height)
+fn build_tkhd_box(video: &Mp4VideoTrack, duration_ms: u32) -> Vec<u8> {
+    build_tkhd_box_with_id(1, 0, video.width, video.height, duration_ms)
 }
 
-fn build_tkhd_box_with_id(track_id: u32, volume: u16, width: u32, height: u32) -> Vec<u8> {
+fn build_tkhd_box_with_id(
+    track_id: u32,
+    volume: u16,
+    width: u32,
+    height: u32,
+    duration_ms: u32,
+) -> Vec<u8> {
     let mut payload = Vec::new();
     payload.extend_from_slice(&0u32.to_be_bytes());
     payload.extend_from_slice(&0u32.to_be_bytes());
     payload.extend_from_slice(&0u32.to_be_bytes());
     payload.extend_from_slice(&track_id.to_be_bytes());
     payload.extend_from_slice(&0u32.to_be_bytes());
-    payload.extend_from_slice(&0u64.to_be_bytes());
+    payload.extend_from_slice(&duration_ms.to_be_bytes()); // duration (movie timescale)
+    payload.extend_from_slice(&0u32.to_be_bytes());
     payload.extend_from_slice(&0u64.to_be_bytes());
     payload.extend_from_slice(&0u16.to_be_bytes());
     payload.extend_from_slice(&0u16.to_be_bytes());
